@@ -21,6 +21,7 @@ from asynq.batching import BatchBase, BatchItemBase
 from asynq.contexts import AsyncContext, NonAsyncContext
 from asynq.futures import ConstFuture, ErrorFuture, Future
 from asynq import scoped_value as _sv
+from asynq import tools as _tools
 
 FID0 = 100000
 import threading
@@ -115,6 +116,7 @@ class Run(object):
     def __init__(self, prog, schedule=None, tiebreak_seed=None, options=None, shared_dfns=None):
         self.prog = prog
         self.finished = False
+        self.vclock = 0
         self.options = options
         self.schedule = schedule      # list of kinds, one per scheduler flush round (steering) or None
         self.tb_seed = tiebreak_seed  # int: pseudo-random tie-break order per round, or None
@@ -160,6 +162,10 @@ class Run(object):
             return          # e.g. a suspended generator of an abandoned task being closed by the garbage collector later on
         kw["e"] = e
         self.events.append(kw)
+        if e == "SegBegin":
+            self.vclock += kw["t"]      # virtual time (read by AsyncTimer contexts) passes in task code only
+        elif e == "SegEnd":
+            self.vclock += 1
 
     def exc_ids(self, exc):
         """(vid, uid) of an exception instance; first sight assigns them."""
@@ -438,6 +444,9 @@ class Run(object):
         ty = d["type"]
         if ty == "async":
             obj = VCtx(self, c, t, d.get("faulty", "-"))
+        elif ty == "timer":
+            obj = VTimer()
+            obj._vinit(self, c, t)
         elif ty == "nonasync":
             obj = VNonAsync(self, c, t)
         elif ty == "cleanup":
@@ -866,6 +875,8 @@ class Run(object):
         opts = self.options or {}
         clock = opts.get("_clock")
         old_utime, old_time = schedmod.utime, schedmod.time
+        _install_vclock()
+        _tls.run = self
         try:
             for k, v in opts.items():
                 if not k.startswith("_"):
@@ -881,6 +892,7 @@ class Run(object):
             for k, v in saved.items():
                 setattr(_debug.options, k, v)
             schedmod.utime, schedmod.time = old_utime, old_time
+            _tls.run = None
             stats = profiler.flush()                 # this thread's profiler buffer (also empties it)
             self.nprof = len(stats)
             self.prof_names = [str(x.get("name")).split("(")[0][:60] for x in stats]     # "<per-thread id>.<function>"
@@ -1140,6 +1152,48 @@ class VCtx(AsyncContext, _CtxMixin):
         self._run.emit("Pause", a=self._c)
         if (self._faulty == "pause" and self._npause == 1) or self._faulty == "pause_always":
             raise self._run.new_err(90000 + self._c)
+
+
+_tls = threading.local()
+_vclock_lock = threading.Lock()
+
+
+def _install_vclock():
+    """asynq.tools.utime (the clock AsyncTimer reads) -> the virtual clock of the Run executing on this thread"""
+    import asynq.tools as tools
+    with _vclock_lock:
+        if getattr(tools.utime, "_verif", False):
+            return
+        real = tools.utime
+
+        def utime():
+            run = getattr(_tls, "run", None)
+            return real() if run is None else run.vclock
+        utime._verif = True
+        tools.utime = utime
+
+
+class VTimer(_tools.AsyncTimer, _CtxMixin):
+    """the library's AsyncTimer itself, observed: total_time is reported when the with-block has been left"""
+
+    def __enter__(self):
+        self._run.emit("Enter", a=self._c, t=self._t)
+        return _tools.AsyncTimer.__enter__(self)
+
+    def __exit__(self, ty, val, tb):
+        self._run.emit("Exit", a=self._c, t=self._t)
+        try:
+            return _tools.AsyncTimer.__exit__(self, ty, val, tb)
+        finally:
+            self._run.emit("Timer", a=self._c, b=self.total_time)
+
+    def resume(self):
+        self._run.emit("Resume", a=self._c)
+        return _tools.AsyncTimer.resume(self)
+
+    def pause(self):
+        self._run.emit("Pause", a=self._c)
+        return _tools.AsyncTimer.pause(self)
 
 
 class VNonAsync(NonAsyncContext, _CtxMixin):
